@@ -77,35 +77,48 @@ func (zset *ZSet) Add(nms []*ZSetMember, opt ZAddOption) int {
 }
 
 func (zset *ZSet) Range(start int, stop int, opt ZRangeOption) []*ZSetMember {
+	size := len(zset.members)
 	if start < 0 {
-		start = len(zset.members) + start
+		start = size + start
 	}
 	if stop < 0 {
-		stop = len(zset.members) + stop
+		stop = size + stop
+	}
+	if start < 0 {
+		start = 0
+	}
+	if size <= stop {
+		stop = size - 1
 	}
 
 	mems := []*ZSetMember{}
 	for n := start; n <= stop; n++ {
-		if (n < 0) || ((len(zset.members) - 1) < n) {
-			continue
-		}
 		mems = append(mems, zset.members[n])
 	}
 
+	return limitZSetMembers(mems, opt)
+}
+
+// limitZSetMembers applies the LIMIT offset and count (a negative count means all) and the REV option.
+func limitZSetMembers(mems []*ZSetMember, opt ZRangeOption) []*ZSetMember {
 	offset := opt.Offset
 	if offset < 0 {
 		offset = 0
 	}
-	count := opt.Count
-	if count < 0 {
-		count = len(mems)
+	if len(mems) < offset {
+		offset = len(mems)
 	}
+	count := opt.Count
+	if count < 0 || len(mems)-offset < count {
+		count = len(mems) - offset
+	}
+	mems = mems[offset : offset+count]
 
 	if !opt.REV {
-		return mems[offset:count]
+		return mems
 	}
 
-	return reverseZSetMembers(mems[offset:count])
+	return reverseZSetMembers(mems)
 }
 
 func (zset *ZSet) RangeByScore(min float64, max float64, opt ZRangeOption) []*ZSetMember {
@@ -120,20 +133,7 @@ func (zset *ZSet) RangeByScore(min float64, max float64, opt ZRangeOption) []*ZS
 		mems = append(mems, mem)
 	}
 
-	offset := opt.Offset
-	if offset < 0 {
-		offset = 0
-	}
-	count := opt.Count
-	if count < 0 {
-		count = len(mems)
-	}
-
-	if !opt.REV {
-		return mems[offset:count]
-	}
-
-	return reverseZSetMembers(mems[offset:count])
+	return limitZSetMembers(mems, opt)
 }
 
 func (zset *ZSet) Rem(members []string) int {
